@@ -188,6 +188,7 @@ func genC09(t *testing.T) {
 		run(c)
 	}
 	if common.Batch == 0 {
+		nilElemsFork("C09")
 		soakFork(common.Pick(20000, 200000))
 	}
 }
